@@ -8,7 +8,7 @@ from vt.props import c11
 from vt.smodel import NODEF, Arg, DirectiveDef, Field, L, N, NN, named_of, tstr
 
 LEVEL = "fault_enumeration"
-N_CASES = {"quick": 64, "thorough": 3000}
+N_CASES = {"quick": 64, "thorough": 1000}
 MIN_NONTRIVIAL = 50
 RULE = ("case = valid schema model (as C11; built first to make sure it IS accepted) x the catalogue of SDL-level violation "
         "rewrites, each applied at every applicable site (up to 3 random sites per rewrite in quick): undefined type in field / "
